@@ -17,7 +17,8 @@ checks, na = [], []
 for p in props:
     pid = p["id"]
     path = os.path.join(V, "vmc", "props", pid.lower() + ".py")
-    if not os.path.exists(path):
+    ready = open(os.path.join(V, "tools", "ready.txt")).read().split()
+    if not os.path.exists(path) or pid not in ready:
         na.append({"property_id": pid, "reason": "check not built yet (design in DESIGN.md section 5); nothing is claimed for it"})
         continue
     m = importlib.import_module("vmc.props." + pid.lower())
